@@ -14,7 +14,7 @@ import astral.moon
 import astral.sun
 from astral import Depression, LocationInfo, SunDirection
 from astral.location import Location
-from common import F, FS, I, S, B, E, N, Case, call
+from common import invoke,  F, FS, I, S, B, E, N, Case, call
 import corr_geo
 import gens
 
@@ -133,12 +133,16 @@ def gen_location(rng, n, tier="quick"):
     while i < n:
         info = LocationInfo(rng.choice(["A", "Greenwich", "x y"]), rng.choice(["R", "England", ""]),
                             rng.choice(TZ_NAMES + OLD_TZ_NAMES), rng.uniform(-90, 90), rng.uniform(-180, 180))
-        loc = Location(info)
+        loc = invoke(Location, info)       # positionally or as Location(info=…)
+        # a second Location made from the very same LocationInfo, and the LocationInfo itself, must
+        # not change when attributes of the first are assigned
         if rng.random() < 0.05:
             # the documented default location: Greenwich (values from the documentation, not read
             # back from the object)
             loc = Location()
             info = LocationInfo("Greenwich", "England", "Europe/London", 51.4733, -0.0008333)
+        sib, orig_info = Location(info), {"latitude": info.latitude, "longitude": info.longitude,
+                                          "timezone": info.timezone}
         history = []
         # what the object's zone must be by the property, tracked independently of the object:
         # an accepted assignment sets it, a rejected one leaves it as it was
@@ -211,10 +215,10 @@ def gen_location(rng, n, tier="quick"):
             kwargs = {}
             d = None
             if m not in ("solar_azimuth", "solar_elevation", "solar_zenith"):
-                if rng.random() < 0.7:
+                if rng.random() < 0.6:
                     d = gens.rand_date(rng, wide=False)
                     kwargs["date"] = d
-                local = rng.random() < 0.6
+                local = rng.random() < 0.5
                 if rng.random() < 0.8:
                     kwargs["local"] = local
                 else:
@@ -339,6 +343,15 @@ def gen_location(rng, n, tier="quick"):
                         and got_d.tzinfo is given_phase_dt.tzinfo):
                     exp += " Xdatetime-not-handed-on:%r" % (got_d,)
             yield Case("Location." + m, req, exp, descr)
+        for attr in ("latitude", "longitude"):
+            got_s, got_i = getattr(sib, attr), getattr(info, attr)
+            i += 1
+            exp_s = FS(got_s)
+            if got_s != orig_info[attr] or got_i != orig_info[attr] or info.timezone != orig_info["timezone"]:
+                exp_s += " Xchanged-through-another-Location:%r/%r" % (got_s, got_i)
+            yield Case("Location." + attr, "dms_to_float %s N" % F(orig_info[attr]), exp_s,
+                       {"history": list(history), "checked": "a sibling Location and the LocationInfo both were "
+                                                              "made from keep their " + attr})
 
 
 def gen_cli(rng, n, tier="quick"):
